@@ -44,14 +44,15 @@ def fabs_gt(d, cap):
 class Spec:
     """configuration of one symbolic run"""
 
-    def __init__(self, np, steps, inner, kt_start, kt_finish, kt_ratio, max_step, conv, lo, hi, init, index_stream, moves=None, accepts=None, script_valid=None):
+    def __init__(self, np, steps, inner, kt_start, kt_finish, kt_ratio, max_step, conv, lo, hi, init, index_stream, moves=None, accepts=None, script_valid=None, script_score=None):
         self.np, self.steps, self.inner = np, steps, inner
         self.kt_start, self.kt_finish, self.kt_ratio = kt_start, kt_finish, kt_ratio
         self.max_step, self.conv = max_step, conv
         self.lo, self.hi, self.init = lo, hi, init
         self.index_stream = index_stream
         self.moves, self.accepts = moves, accepts   # concrete draw streams or None (symbolic)
-        self.script_valid = script_valid
+        self.script_valid = script_valid   # per call t: True / False / None (symbolic)
+        self.script_score = script_score   # per call t: float / None (symbolic)
 
 
 # -------------------------------------------------------------------------------- builtins
@@ -191,6 +192,9 @@ def resolve(ex, st, spec, mon):
         mon["loops"] += 1
         if T.is_t(mon["kt"]) or float(mon["kt"]) != 0.0:
             mon["kt"] = T.fbin("fmul", mon["kt"], spec_factor(ex, spec, mon))
+        l_full = 0 if spec.steps == 0 else spec.steps // mon["inner_eff"]
+        if spec.conv is not None and mon["loops"] <= l_full:
+            mon["conv_c"] = mon.get("conv_c", []) + [T.fcmp("flt", T.fbin("fsub", mon["cur"], mon["loop_start"]), spec.conv)]
         mon["loop_start"] = mon["cur"]
 
 
@@ -239,8 +243,10 @@ def on_score(ex, st, vec):
     # proposals are answered from the script by call index even if the vector equals the held one;
     # later calls (final validity check) see the held score when they see the held vector
     eq = T.band(*[feq(v, h) for v, h in zip(vec, held)]) if t > p_full else False
-    valid_t = T.var("valid%d" % t, "B") if spec.script_valid is None else spec.script_valid[t]
-    s_t = F("s%d" % t)
+    sv = spec.script_valid[t] if (spec.script_valid is not None and t < len(spec.script_valid)) else None
+    ss = spec.script_score[t] if (spec.script_score is not None and t < len(spec.script_score)) else None
+    valid_t = T.var("valid%d" % t, "B") if sv is None else bool(sv)
+    s_t = F("s%d" % t) if ss is None else float(ss)
     valid_eff = T.bor(eq, valid_t)
     score_eff = T.ite(eq, mon["cur"], s_t)
     mon["pend"] = (list(vec), valid_eff, score_eff)
@@ -295,9 +301,41 @@ def run_spec(ex, spec):
         resolve(ex, s, spec, mon)
         fin = [rv.fields[i].fields[0].fields[0] for i in range(spec.np)]
         mon["viol"]["bad_held"].append(T.bor(*[fne(a, b) for a, b in zip(fin, mon["held"])]))
+        mon["viol"]["count"] = [count_violation(spec, mon, calls_in_opt)]
         out.append(dict(pc=list(s.pc) + mon["hyps"], viol=mon["viol"], calls=calls_in_opt, mon=mon, final=fin, log=list(arm_log(s)), robust=list(mon.get("robust", []))))
     panics = ex.panics[n_panics:]
     return out, panics
+
+
+def count_violation(spec, mon, calls):
+    """C20: Bool term 'the number of proposals this history evaluated is not what the
+    specification allows' (P is calls-1, or calls-2 if the last call was the final validity check)"""
+    inner_eff = mon["inner_eff"]
+    steps = spec.steps
+    l_full = 0 if steps == 0 else steps // inner_eff
+    c = mon.get("conv_c", [])
+    S_ = {}
+    for l in range(6, len(c) + 1):
+        S_[l] = T.band(*c[l - 6:l])
+    first = {}
+    for l in sorted(S_):
+        first[l] = T.band(S_[l], *[T.bnot(S_[k]) for k in S_ if k < l])
+    nostop = T.band(*[T.bnot(v) for v in S_.values()]) if S_ else True
+    n = calls - 1
+
+    def ok(p):
+        if p < 0:
+            return False
+        alts = []
+        for l, f in first.items():
+            if p == l * inner_eff:
+                alts.append(f)
+        in_range = (p <= steps and p + inner_eff > steps) or (steps == 0 and p == 0)
+        # a run that stops early without the rule being met, or goes on although it is met, is wrong
+        if in_range and (l_full == 0 or p >= l_full * inner_eff or True):
+            alts.append(nostop if p >= l_full * inner_eff or steps == 0 else False)
+        return T.bor(*alts) if alts else False
+    return T.bnot(T.bor(ok(n), ok(n - 1)))
 
 
 def native_stream(seed, np, steps):
